@@ -8,6 +8,7 @@ import itertools as it
 import multiprocessing as mp
 import ctypes
 import os
+import pickle
 from math import sin, cos, exp, sqrt, pi
 from warnings import warn
 import numpy as np
@@ -1033,6 +1034,14 @@ def srs(
         sr = 1.0  # can be anything, just needed for calculations
 
     parallel, ncpu = _process_parallel(parallel, LF, N * H, maxcpu, getresp)
+
+    if parallel == "yes" and not isinstance(peak, str):
+        # the `peak` function is sent to the workers with every task,
+        # so it must be picklable (a lambda or local function is not)
+        try:
+            pickle.dumps(methfunc)
+        except Exception:
+            parallel = "no"
 
     if parallel == "yes":
         # global shared vars will be:
